@@ -7,6 +7,7 @@ import (
 	"encoding/json"
 	"fmt"
 	"io"
+	"os"
 	"os/exec"
 	"strconv"
 	"sync"
@@ -27,7 +28,14 @@ var (
 	next   int
 )
 
-const Script = "/verif/harness/py/indep.py"
+var Script = home() + "/harness/py/indep.py"
+
+func home() string {
+	if h := os.Getenv("BKLV_HOME"); h != "" {
+		return h
+	}
+	return "/verif"
+}
 
 func start() (*proc, error) {
 	cmd := exec.Command("python3", Script)
